@@ -81,7 +81,8 @@ def handwritten_schema():
     types = OrderedDict()
     types["Item"] = {"kind": "OBJECT", "interfaces": [], "fields": [
         {"name": "v", "type": NN(N("Int")), "args": []}, {"name": "w", "type": N("Int"), "args": []},
-        {"name": "sub", "type": N("Item"), "args": []}, {"name": "tags", "type": NN(L(NN(N("String")))), "args": []}]}
+        {"name": "sub", "type": N("Item"), "args": []}, {"name": "tags", "type": NN(L(NN(N("String")))), "args": []},
+        {"name": "tag", "type": N("Int"), "args": [{"name": "n", "type": NN(N("Int")), "default": ("int", 3)}]}]}
     types["Query"] = {"kind": "OBJECT", "interfaces": [], "fields": [
         {"name": "items", "type": L(NN(N("Item"))), "args": []}, {"name": "pairs", "type": L(NN(L(NN(N("Item"))))), "args": []},
         {"name": "one", "type": N("Item"), "args": []}, {"name": "strict", "type": NN(N("Item")), "args": []},
@@ -102,6 +103,10 @@ HAND_QUERIES = [
     "{ items { v sub { v } } }",
     "{ one { sub { v w } w } strict { v } }",
     "{ items { tags v } ping }",
+    # an argument that fails at execution time (null through a nullable variable at a defaulted non-null argument), once
+    # per list item
+    ("query ($x: Int) { items { tag(n: $x) w } ping }", {"x": None}),
+    ("query ($x: Int) { pairs { tag(n: $x) } one { tag(n: $x) sub { tag } } }", {"x": None}),
 ]
 HAND_MUTATIONS = [
     "mutation { ma { v w } mb { v } }",
@@ -112,8 +117,9 @@ HAND_MUTATIONS = [
 
 
 def handwritten_cases(rng, queries):
-    return [{"query": q, "variables": {}, "opname": None, "kind": "query", "oracle_seed": rng.randrange(1 << 30),
-             "root": None, "adversarial": 0.0, "fail": 0.0} for q in queries]
+    return [{"query": q if isinstance(q, str) else q[0], "variables": {} if isinstance(q, str) else dict(q[1]), "opname": None,
+             "kind": "query", "oracle_seed": rng.randrange(1 << 30), "root": None, "adversarial": 0.0, "fail": 0.0}
+            for q in queries]
 
 
 async def fault_variants(s, cases, rng, per_case):
